@@ -113,6 +113,9 @@ def run_spec(spec, points, tier, visit):
     if not combs:
         return 0
     real = spec[0] == 'real'
+    deep = real and jets.depth(spec[1]) >= 3
+    if deep:      # depth-3 chains: 5-point sub-pool and orders {1, 2, 4, 6}
+        combs = [c for c in combs if c.x in (0.05, 0.75, 4.0, 100.0, -2.0)]
     methods = cm.METHODS if real else ['central', 'forward', 'backward']
     ncalls = 0
     d1 = tier == 'thorough' and real and jets.depth(spec[1]) <= 1 or (tier == 'thorough' and not real and spec[0] == 'rot')
@@ -122,7 +125,7 @@ def run_spec(spec, points, tier, visit):
             gens = gens + cm.gen_menu(method)
         for gen in gens:
             for n in range(0, cm.NMAX[method] + 1):
-                orders = cm.ORDERS if gen[0] == 'default' else [1, 2, 3, 4]
+                orders = ([1, 2, 4, 6] if deep else cm.ORDERS) if gen[0] == 'default' else [1, 2, 3, 4]
                 if gen[0] != 'default' and n == 0:
                     continue
                 for order in orders:
